@@ -335,6 +335,13 @@ func (w *vkWorld) vkJudge(q vkQuery, r h_resolver.Reply, noAnchors bool) vkVerdi
 			}
 		}
 	}
+	if prefix && t.Status == zonemodel.Secure {
+		// The reply ends in an alias and says NOERROR, but the model's chain goes on inside secure zones: the target's
+		// lookup did not deliver its data. Untampered, the target's records are missing; tampered, "a response on the
+		// path is mis-signed … the client gets SERVFAIL" — a NOERROR (with AD when the alias validated) is neither.
+		return bad("alias-without-target", "the reply ends in an alias (%s, %d of %d answer RRsets of the model's chain) although the chain continues under secure zones: the client must get the whole answer or SERVFAIL",
+			rc, len(sets), len(t.Answer))
+	}
 	if t.Status == zonemodel.Secure && !full && !prefix {
 		return bad("altered-data", "name is secure in the model but the reply (%s, %d answer RRsets) is neither SERVFAIL nor the model's truth (%s/%s, %d RRsets)",
 			rc, len(sets), dns.RcodeToString[t.Rcode], t.Terminal, len(t.Answer))
